@@ -164,6 +164,48 @@ impl World {
     }
 }
 
+/// Shell tie for "classic mode never applies time-based recovery": run the REAL
+/// `handle_housekeeping(classic)` on the current links (all made alive first, so no teardown
+/// interferes) and return (windows, fast flags) before and after.
+pub fn housekeeping_windows(w: &mut World, classic: bool, now: u64) -> (Vec<i128>, Vec<i128>) {
+    use srtla_send::sender::verif_hooks as vh;
+    use std::sync::Arc;
+    let _guard = w.rt.handle().clone();
+    let _enter = _guard.enter();
+    let mut conn_io: vh::ConnIoMap = std::collections::HashMap::new();
+    let sink = std::net::UdpSocket::bind("127.0.0.1:0").unwrap();
+    let remote = sink.local_addr().unwrap();
+    for c in w.conns.iter_mut() {
+        c.connected = true;
+        c.last_received = Some(now);
+        c.reconnection.connection_established_ms = now.saturating_sub(60_000).max(1);
+        let sock = socket2::Socket::new(socket2::Domain::IPV4, socket2::Type::DGRAM, Some(socket2::Protocol::UDP)).unwrap();
+        sock.bind(&std::net::SocketAddr::new(c.local_ip, 0).into()).unwrap();
+        sock.connect(&remote.into()).unwrap();
+        sock.set_nonblocking(true).unwrap();
+        conn_io.insert(c.conn_id, vh::ConnIo {
+            socket: Arc::new(srtla_send::net::BatchUdpSocket::new(sock).unwrap()),
+            binder: Arc::new(srtla_send::net::SourceIpBinder), remote });
+    }
+    let snap = |w: &World| -> Vec<i128> {
+        w.conns.iter().flat_map(|c| [c.window as i128, c.congestion.fast_recovery_mode as i128]).collect()
+    };
+    let before = snap(w);
+    srtla_core::utils::verif_clock::set(Some(now));
+    let mut reg = srtla_core::registration::SrtlaRegistrationManager::new();
+    let mut all_failed_at = None;
+    let mut readers = std::collections::HashMap::new();
+    let (tx, _rx) = vh::create_uplink_channel();
+    let World { conns, rt, .. } = w;
+    let _ = rt.block_on(async {
+        let _g = (); // a tokio context is needed by BatchUdpSocket's AsyncFd
+        vh::handle_housekeeping(conns, &mut conn_io, &mut reg, classic, now, &mut all_failed_at, &mut readers, &tx).await
+    });
+    for (_, h) in readers.drain() { drop(h); }
+    let after = snap(w);
+    (before, after)
+}
+
 /// Run an op list on fresh links; returns the one-line Coq case literal.
 pub fn run_case(n: usize, ops: &[Op]) -> (String, bool) {
     let mut w = World::new(n);
@@ -376,12 +418,19 @@ pub fn gen_ops(rng: &mut Rng, profile: Profile, n: usize, len: usize) -> Vec<Op>
 /// Standard driver used by the per-property modules.
 pub fn run_profile(prop: &str, run_module: &str, profile: Profile, seed: u64, tier: &str, out: &std::path::Path,
                    corpus: &[(usize, Vec<Op>)]) -> std::io::Result<()> {
+    run_profile_with(prop, run_module, profile, seed, tier, out, corpus, "", |_, _| {})
+}
+
+/// `wrap`: constructor applied to the core case literal; `extra`: further cases of the property.
+#[allow(clippy::too_many_arguments)]
+pub fn run_profile_with(prop: &str, run_module: &str, profile: Profile, seed: u64, tier: &str, out: &std::path::Path,
+                        corpus: &[(usize, Vec<Op>)], wrap: &str, extra: impl FnOnce(&mut Run, &mut Rng)) -> std::io::Result<()> {
     let mut run = Run::new(prop, run_module, seed, tier, out);
     let mut rng = Rng::new(seed ^ 0xC0DE_0000 ^ (prop.as_bytes()[2] as u64) << 8 ^ prop.as_bytes()[1] as u64);
     for (n, ops) in corpus {
         let (text, p) = run_case(*n, ops);
         if p { run.panics += 1; }
-        run.push("corpus", true, text);
+        run.push("corpus", true, if wrap.is_empty() { text } else { format!("{} {}", wrap, text) });
     }
     let ncases = if run.thorough() { 6000 } else { 500 };
     for k in 0..ncases {
@@ -393,7 +442,8 @@ pub fn run_profile(prop: &str, run_module: &str, profile: Profile, seed: u64, ti
         run.count(&format!("links:{}", n));
         let (text, p) = run_case(n, &ops);
         if p { run.panics += 1; run.count("impl_panic_cases"); }
-        run.push("history", ops.len() >= 8, text);
+        run.push("history", ops.len() >= 8, if wrap.is_empty() { text } else { format!("{} {}", wrap, text) });
     }
+    extra(&mut run, &mut rng);
     run.finish(16, 1_000_000)
 }
